@@ -332,10 +332,13 @@ func extStringsReplaceAll(fr *frame, args []value) value {
 		case PAtom:
 			// atoms that cannot contain the pattern are unchanged
 			c := fr.i.ctx
-			if c.AtomExcludes(p.Lit, old) || c.Valid(fmt.Sprintf("(not (str.contains %s %s))", p.Lit, smtStrLit(old))) == Unsat {
+			if c.AtomExcludes(p.Lit, old) {
 				out = append(out, p)
 			} else {
-				panic(Inconclusive{"ReplaceAll inside an atom that may contain the pattern"})
+				// a derived atom: r = replace_all(a, old, new)
+				r := c.NewStr("repl")
+				c.addPC(fmt.Sprintf("(= %s (str.replace_all %s %s %s))", r, p.Lit, smtStrLit(old), smtStrLit(nw)))
+				out = append(out, Part{Kind: PAtom, Lit: r})
 			}
 		case PInt:
 			if strings.ContainsAny(old, "-0123456789") {
